@@ -74,6 +74,8 @@ func genHpackTables(repo string) (string, error) {
 //	h2_write_chunk              mhttp2.go MFramer.writeData: const maxFrameSize
 //	h2_stream_err_drains        mhttp2.go MFramer.ReadFrame: a StreamError path drains the offending frame (data.Drain inside `if _, ok := err.(StreamError)`)
 //	h2_dispatch_continues       stream/http2/stream.go Dispatch (server and client): a StreamError does not leave the decode loop
+//	h2_stream_data_copied       stream/http2/stream.go client and server handleFrame: a DATA payload (a slice of the connection's read buffer)
+//	                            is copied into a buffer of the stream (recData.Write(data)) and never wrapped (no NewIoBufferBytes(data))
 //	h2_hpack_at_u64cmp          hpack.go Decoder.at: the dynamic-table range test compares the uint64 index (`i > uint64(d.maxTableIndex())`, true)
 //	                            or the converted int (`pos := int(i) - staticTable.len(); if pos > dt.len()`, false)
 //	h2_hdr_split_last_le        mhttp2.go MServerConn.writeHeaders / MClientConn.writeHeaders: the fragment that completes the header block
@@ -385,6 +387,45 @@ func genH2Src(repo string) (string, error) {
 				return false
 			})
 		}
+	}
+	copied := 0
+	wrapped := false
+	for _, recv := range []string{"serverStreamConnection", "clientStreamConnection"} {
+		fd := FindFunc(sf, recv, "handleFrame")
+		if fd == nil {
+			continue
+		}
+		wr := false
+		ast.Inspect(fd.Body, func(n ast.Node) bool {
+			c, isCall := n.(*ast.CallExpr)
+			if !isCall || len(c.Args) != 1 {
+				return true
+			}
+			arg, isId := c.Args[0].(*ast.Ident)
+			sel, isSel := c.Fun.(*ast.SelectorExpr)
+			if !isId || !isSel || arg.Name != "data" {
+				return true
+			}
+			switch sel.Sel.Name {
+			case "Write":
+				wr = true
+			case "NewIoBufferBytes", "NewIoBufferString":
+				wrapped = true
+			}
+			return true
+		})
+		if wr {
+			copied++
+		}
+	}
+	switch {
+	case copied == 2 && !wrapped:
+		b.WriteString("Definition h2_stream_data_copied := true.\n")
+	case wrapped:
+		b.WriteString("Definition h2_stream_data_copied := false.\n")
+	default:
+		ok = false
+		b.WriteString("Definition h2_stream_data_copied := false.\n")
 	}
 	switch {
 	case disp == 2 && conts == 2:
